@@ -37,7 +37,10 @@ FEATURES = ["where-alias", "where-complex", "groupby-alias", "groupby-selected-a
             "inner-cte", "join-using", "force-index", "prewhere", "rollup", "setop-orderby", "setop-limit", "groupby-subquery",
             "setop-aliased-branches",
             # a reference to a table of the statement around the query (correlation): the query's own reason to qualify its columns
-            "correlated-where", "correlated-prewhere", "correlated-where-only-reason"]
+            "correlated-where", "correlated-prewhere", "correlated-where-only-reason",
+            # data-modifying statements with RETURNING as CTE bodies (PostgreSQL): the body is the statement's stand-alone text
+            "dml-insert-returning", "dml-insert-select-returning", "dml-delete-returning", "dml-update-returning", "dml-update-from-returning"]
+DML_FEATURES = {f for f in FEATURES if f.startswith("dml-")}
 
 
 def R():
@@ -58,6 +61,21 @@ def build_inner(Q, feats, depth=0):
     T = r["Table"]
     t = T("ti%d" % depth)
     fn = lambda n: r["fn." + n]  # noqa: E731
+    dml = [f for f in feats if f in DML_FEATURES]
+    if dml:
+        if Q is not r["PostgreSQLQuery"]:
+            raise LookupError("RETURNING is PostgreSQL's")
+        u = T("tdml")
+        kind = dml[0]
+        if kind == "dml-insert-returning":
+            return Q.into(t).columns("id", "a").insert(1, 2).returning(t.id, t.a + 1)
+        if kind == "dml-insert-select-returning":
+            return Q.into(t).from_(u).select(u.id, u.a).where(u.a > 1).returning(t.id)
+        if kind == "dml-delete-returning":
+            return Q.from_(t).delete().where(t.a == 1).returning(t.id, t.a)
+        if kind == "dml-update-returning":
+            return Q.update(t).set(t.a, 1).where(t.id == 2).returning(t.id, t.a * 2)
+        return Q.update(t).set(t.a, u.a).from_(u).where(t.id == u.id).returning(t.id, u.a)
     q = Q.from_(t)
     sel = [t.id]
     if "select-alias" in feats:
@@ -237,7 +255,7 @@ def cases(tier, seed, shard, nshards):
     rnd = random.Random("C10:%d:%d" % (seed, shard))
     n = (30000 if tier == "quick" else 480000) // nshards
     for i in range(n):
-        yield {"feats": sorted(rnd.sample(FEATURES, rnd.randint(2, 6))), "pos": rnd.choice(POSITIONS), "d": DIALECT_CLASSES[i % 6],
+        yield {"feats": sorted(rnd.sample([f for f in FEATURES if f not in DML_FEATURES], rnd.randint(2, 6))), "pos": rnd.choice(POSITIONS), "d": DIALECT_CLASSES[i % 6],
                "mode": rnd.choice(["inline", "param", "as-keyword"])}
 
 
@@ -283,6 +301,8 @@ def run_case(case, mon):
         return
     if outer is None:
         return
+    if set(case["feats"]) & DML_FEATURES and pos not in ("cte", "cte-with-join"):
+        return  # (a data-modifying statement is embedded as a CTE body only)
     try:
         s_alone = render(alone, d, mode)
         s_outer = render(outer, d, mode)
